@@ -20,7 +20,7 @@ RULE = ('generated projects (static/shared/dual libraries, executables using the
         'finding is recorded as open). W:emit: random scripts driven through the real builtins in an '
         'in-process build context (compile with header file objects / pch given as object or by name / extra_deps / a second output, '
         'static and shared libraries with libs=, executables sharing object files, nested output directories, command and build_step with '
-        'file nodes in the command line, 1-3 outputs, always_outdated, copy_file, alias, test, test_deps, default, install): per edge the '
+        'file nodes in the command line, 1-3 outputs, always_outdated, copy_file in the modes copy / symlink / hardlink, alias, test, test_deps, default, install): per edge the '
         'Rule / Build tuples of the real Make and Ninja handlers vs Graph/Emit.v, per script the hooks, and - independent of the model - the '
         'prerequisites of every output vs what the SCRIPT declares (written down by the generator from the arguments it passes). '
         'R:stampsem: (a) stamp-shaped rule graphs (2-3 outputs, 1-3 consumers, chains, goal orders, touch / delete of inputs, outputs, '
@@ -39,7 +39,11 @@ RULE = ('generated projects (static/shared/dual libraries, executables using the
         'rendered by the real Writer.write_shell) with Emit.emit_make_recipes false. System scenario, always run: 2-output build_step from gen.in with one consumer step per '
         'output, real configure + make: build, no-op build, touch gen.in + build (step and both consumers re-created), no-op build. '
         'Dependency-shape projects (projgen.generate_graph): every output named, declared DAG next to '
-        'the script; emitted edges of both backends vs the DAG, then touch of every source and of half the intermediates with real make')
+        'the script; emitted edges of both backends vs the DAG, then touch of every source and of half the intermediates with real make; '
+        'the shapes include copy_file of GENERATED files in the modes copy / symlink / hardlink (a symbolic link always, a link to a link, '
+        'links in other directories) with steps consuming the link, and a versioned shared library (real file, soname link, development '
+        'link) with an executable linking it; an output counts as re-created when its own time stamp (lstat) or that of the file it '
+        'denotes (stat) changed')
 TRUSTED = ('mtime build semantics: the real GNU Make 4.3 (system level); Make/MakeSem.v model for the generic theorems',
            'Graph/StampSem.v dmake (depth-first walk with cached mtimes; recipe kinds none / real / no-op, lag of the stamp) validated '
            'against GNU Make 4.3 on this run (R:stampsem, both rule shapes); which no-op recipes Make ran is read from make --trace '
@@ -456,8 +460,11 @@ def real_script(rng, rep, ctx, build):
     for i in range(rng.randint(0, 2)):
         src, extra = rng.choice(plain + produced[:1]), some(plain + produced[-1:], 0, 1)
         nm_ = rng.choice(['', 'out/', 'out/a/b/']) + 'copy%d.txt' % i
-        c = ctx['copy_file'](nm_, src, extra_deps=extra)
-        decl.append((c, {src} | set(extra), call('copy_file', nm_, src, extra_deps=extra)))
+        # every mode: a symbolic or hard link consumes the file it is made from exactly as a copy does
+        mode = rng.choice(['copy', 'symlink', 'hardlink'])
+        c = ctx['copy_file'](nm_, src, extra_deps=extra, mode=mode)
+        rep.count('w-emit:copy_file mode=' + mode)
+        decl.append((c, {src} | set(extra), call('copy_file', nm_, src, extra_deps=extra, mode=mode)))
         copies.append(c)
         produced.append(c)
     if rng.random() < 0.7:
@@ -1097,6 +1104,12 @@ def step_id(argv, srcroot):
     for a in argv:
         if a.startswith(srcroot + '/') and a.endswith('.c'):
             return 'compile:' + a[len(srcroot) + 1:]
+    for a in argv:
+        if a.startswith(srcroot + '/') and a.endswith('.y'):
+            return 'generate:' + a[len(srcroot) + 1:]          # a source translated to C first (the yacc stand-in)
+    if '-c' in argv[:-1] and argv[argv.index('-c') + 1].endswith('.c'):
+        g = argv[argv.index('-c') + 1]
+        return 'compile-generated:' + (g[2:] if g.startswith('./') else g)
     if '-o' in argv:
         outs = [argv[i + 1] for i, a in enumerate(argv[:-1]) if a == '-o']
         if outs and outs[0].startswith('out1'):
@@ -1128,6 +1141,10 @@ def expected_graph(p):
                 if not libs_used_by.get(st['owner']):
                     d = set()        # a library no executable uses is not reachable from the goals make is given
             down[st['source']] = d
+    for st in p.steps:
+        if st['kind'] == 'generate':
+            # the translated source: translator, compiler of what it wrote, link of the program that contains it
+            down[st['source']] = {'generate:' + st['source'], 'compile-generated:' + st['outputs'][0], 'link:' + st['owner']}
     down['gen.in'] = {'build_step'}
     return down
 
@@ -1231,10 +1248,13 @@ def default_membership(rep, rng, idx):
 
 # ----------------------------------------------------------------------------- system level: dependency-shape projects
 def _mtimes(build, outs):
+    """What tells that an output was (re-)created: the time stamp of the directory entry itself (lstat: a symbolic link
+    that was made again) paired with the time stamp of the file it denotes (stat, which is what Make looks at: a link
+    whose file behind it was made again).  For anything but a symbolic link the two are the same number."""
     r = {}
     for o in outs:
         try:
-            r[o] = os.stat(os.path.join(build, o)).st_mtime_ns
+            r[o] = (os.lstat(os.path.join(build, o)).st_mtime_ns, os.stat(os.path.join(build, o)).st_mtime_ns)
         except OSError:
             r[o] = None
     return r
@@ -1391,7 +1411,16 @@ def graph_project(rep, rng, idx):
         if rcm != 0 or again:
             bad += rep.fail('a build right after a build re-created %r' % again, {'script': p.script(), 'recreated': again, 'make_output': mout[-800:]})
         built = set(o for o in prim if after[o] is not None)
-        touchables = [('src', f) for f in sources] + [('out', o) for st in G for o in st['outs'] if o in built and rng.random() < 0.5]
+        # (touching a link would touch the file behind it, a file with several names is touched under all of them: such
+        # outputs are changed only through their sources)
+        def plain_file(o):
+            st_ = os.lstat(os.path.join(s.build, o))
+            return not os.path.islink(os.path.join(s.build, o)) and st_.st_nlink == 1
+        touchables = [('src', f) for f in sources] + [('out', o) for st in G for o in st['outs']
+                                                      if o in built and rng.random() < 0.5 and plain_file(o)]
+        for st in G:
+            if st.get('mode'):
+                rep.count('graph:link step mode=%s%s' % (st['mode'], ' (with a consumer)' if any(st['out'] in x['consumes'] for x in G) else ''))
         for where, f in touchables:
             time.sleep(0.02)
             os.utime(os.path.join(s.src if where == 'src' else s.build, f), None)
@@ -1403,7 +1432,16 @@ def graph_project(rep, rng, idx):
             wants = [expected(name, False) & built, expected(name, True) & built]
             rep.case('graph-touch:%d:%s' % (idx, name), bool(wants[0]))
             rep.count('graph:touch ' + where)
-            if rcm == 0 and ran in wants:
+            # symbolic links that denote the touched file were 'changed' by the touch itself; Make has no reason to make
+            # them again (what consumes them must still re-run)
+            alias, grew = set(), True
+            while grew:
+                grew = False
+                for st in G:
+                    if st.get('mode') == 'symlink' and st['out'] not in alias and st['consumes'][0] in alias | {name}:
+                        alias.add(st['out'])
+                        grew = True
+            if rcm == 0 and (ran - alias) in [w - alias for w in wants]:
                 continue
             classes = ()
             lost = wants[0] - ran
@@ -1422,7 +1460,7 @@ def graph_project(rep, rng, idx):
         # nothing), then build again without the failure: over the two builds exactly the downstream set must have been
         # re-created - in particular the failed step and everything below it run in the second build - and a third
         # build does nothing
-        stubbed = set(st['out'] for st in G if not any(('copy_file(%r' % st['out']) in l for l in p.lines))   # cp is not the recorder
+        stubbed = set(st['out'] for st in G if not st.get('real_tool'))   # cp / ln are not the recorder
         multis = [st['out'] for st in G if st['multi'] and st['out'] in stubbed and st['out'] in built]
         others = sorted(o for o in stubbed & built if o not in multis)
         failing = multis + rng.sample(others, min(len(others), 2 if rep.tier != 'thorough' else 6))
